@@ -46,6 +46,14 @@ func init() {
 			}
 			return Sc{App("spec|oc16", BVSort(64), t), tU64}
 		},
+		// chancap(ch): the capacity the channel was made with
+		"chancap": func(env *SpecEnv, args []Value) Value {
+			c, ok := args[0].(Sc)
+			if !ok || c.T.Sort != RefSort {
+				specErr("chancap of a non-channel")
+			}
+			return Sc{Select(chanCapVar(), c.T), tInt}
+		},
 		// wsum16(b, lo, hi): word sum of b[lo:hi] as uint64 (no wrap below 2^32 bytes)
 		"wsum16": func(env *SpecEnv, args []Value) Value {
 			row, off, _ := byteRow(env, args[0])
